@@ -130,3 +130,59 @@ Example C17_nonvacuous :
   (* a piece without a table bound: U+4E00..U+4E10 *)
   forallb (fun x => negb ((19968 <? x) && (x <=? 19984))) class_bounds = true.
 Proof. split; [intro s; apply Permutation_refl | split; vm_compute; reflexivity]. Qed.
+
+(* ---------------------------------------------------------------------------------------------
+   THE WIDTH-CLASS MODEL IS THE C TEXT.  GenCFuncs.v is regenerated from /repo's uc.c by
+   tools/c2clite.py on every run (functions as terms of the deep embedding CLite.v, the range
+   tables from their initializers); for every input, running the translated find(), uc_isdw(),
+   uc_iszw(), uc_acomb(), uc_wid() and uc_isbell() returns the value of the model RenDefs.v that the
+   theorems above speak about, with every table access inside its table. *)
+From NV Require Import CLite CLiteProps GenCFuncs TrUc TrUcTab.
+
+(* the bisection, for ANY table in memory (not only the three of uc.c) *)
+Theorem C17_tr_find : forall m g tab c r d fuel,
+  nth_error m g = Some (tab_block tab) -> tab_ok tab -> int_ok c ->
+  (1 <= length tab)%nat -> Z.of_nat (length tab) <= 1073741823 -> (length tab < fuel)%nat ->
+  tfind c tab = Some r ->
+  callf cprog fuel (S d) F_find [VInt c; VPtr g 0; VInt (Z.of_nat (length tab))] m = Ok (VInt (b2z r), m).
+Proof. exact tr_find. Qed.
+Print Assumptions C17_tr_find.
+
+(* the tables c2clite.py read from the initializers are the ones translate.py dumped by running the C compiler *)
+Theorem C17_tr_tables : gb_dwchars = tab_block dwchars /\ gb_zwchars = tab_block zwchars /\ gb_bchars = tab_block bchars.
+Proof. exact (conj gb_dwchars_eq (conj gb_zwchars_eq gb_bchars_eq)). Qed.
+Print Assumptions C17_tr_tables.
+
+Theorem C17_tr_width_class : forall m c d fuel, globals_at m -> int_ok c -> (fuel_tabs <= fuel)%nat ->
+  callf cprog fuel (S (S d)) F_uc_isdw [VInt c] m = Ok (VInt (b2z (uc_isdw c)), m) /\
+  callf cprog fuel (S (S d)) F_uc_iszw [VInt c] m = Ok (VInt (b2z (uc_iszw c)), m) /\
+  callf cprog fuel (S d) F_uc_acomb [VInt c] m = Ok (VInt (b2z (uc_acomb c)), m).
+Proof. exact tr_width_class. Qed.
+Print Assumptions C17_tr_width_class.
+
+(* on a string in memory: decode, then classify (the decode reads only inside the string + terminator) *)
+Theorem C17_tr_uc_wid : forall m b s o d fuel, globals_at m ->
+  str_at m b s -> bytes_lt256 s -> (o + uc_len_b (nthb s o) - 1 <= length s)%nat -> (o <= length s)%nat ->
+  (fuel_tabs <= fuel)%nat ->
+  callf cprog fuel (S (S (S d))) F_uc_wid [VPtr b (Z.of_nat o)] m = Ok (VInt (uc_wid (skipn o s)), m).
+Proof. exact tr_uc_wid. Qed.
+Print Assumptions C17_tr_uc_wid.
+
+Theorem C17_tr_uc_isbell : forall m b s o d fuel, globals_at m ->
+  str_at m b s -> bytes_lt256 s -> (o + uc_len_b (nthb s o) - 1 <= length s)%nat -> (o <= length s)%nat ->
+  (fuel_tabs <= fuel)%nat ->
+  callf cprog fuel (S (S (S d))) F_uc_isbell [VPtr b (Z.of_nat o)] m = Ok (VInt (b2z (uc_isbell (skipn o s))), m).
+Proof. exact tr_uc_isbell. Qed.
+Print Assumptions C17_tr_uc_isbell.
+
+Example C17_tr_nonvacuous :
+  let s := [228; 184; 150; 97]%N in            (* U+4E16 (wide) and a *)
+  let m := cglobals ++ [cstr_block (zb s)] in
+  globals_at m /\ str_at m (length cglobals) s /\
+  callf cprog 500 6 F_uc_wid [VPtr (length cglobals) 0] m = Ok (VInt 2, m) /\
+  callf cprog 500 6 F_uc_wid [VPtr (length cglobals) 3] m = Ok (VInt 1, m) /\
+  callf cprog 500 6 F_uc_isbell [VPtr (length cglobals) 0] m = Ok (VInt 0, m).
+Proof.
+  cbv zeta. split; [intros g blk H; rewrite nth_error_app1; [exact H|apply nth_error_Some; congruence]|].
+  split; [reflexivity|]. vm_compute. repeat split; reflexivity.
+Qed.
